@@ -376,7 +376,7 @@ class Runner:
         sg = af["subs"][q["g"] - 1]
         ilat = -(-sg["s"] // 3600000)            # smallest whole degree >= the southern limit (limits in 0.001")
         ilon_w = -(-sg["e"] // 3600000)          # longitude positive WEST in the file
-        if ilat * 3600000 < sg["n"] and ilon_w * 3600000 < sg["w"]:
+        if ilat * 3600000 < sg["n"] and ilon_w * 3600000 < sg["w"] and getattr(self, "nint", 0) < 400:      # at most 400 pairs per run
             def call(a, b):
                 try:
                     o = self.tr.ntv2_2d(grid, a, b, forward_tf=fwd, method=m)
